@@ -181,8 +181,17 @@ def check_case(case) -> Result:
     import contextlib
     import io
 
+    init_before = tn.mps_to_dense(cfg.initial_state.factors) if cfg.initial_state is not None else None
     with contextlib.redirect_stdout(io.StringIO()):
-        res = cut(MPSBackend(seq, config=cfg).run)
+        backend = MPSBackend(seq, config=cfg)
+        res = cut(backend.run)
+        if case["seed"] % 3 == 0:  # history: the second run of the same backend object is the one judged
+            res = cut(backend.run)
+            r.label("second_run_of_the_same_backend")
+    if init_before is not None:
+        ch = float(np.abs(tn.mps_to_dense(cfg.initial_state.factors) - init_before).max())
+        if ch > 1e-12:
+            r.fail("run_modified_the_configured_initial_state", f"max change {ch:.3e}")
 
     grid = info["grid"]
     nsteps = len(grid) - 1
